@@ -67,4 +67,31 @@ def formatted (nist : Bool) (msg ctx oid phm : List Nat) : List Nat :=
   else if oid.isEmpty then [0] ++ [ctx.length % 256] ++ ctx ++ msg
   else [1] ++ [ctx.length % 256] ++ ctx ++ oid ++ phm
 
+
+/-- Algorithm 6 `ML-DSA.KeyGen_internal(ξ)`: returns `(pk, sk)` -/
+def keyGenInternal (P : Params) (H G : List Nat → Nat → List Nat) (nG nH : Nat) (xi : List Nat) : Option (List Nat × List Nat) :=
+  -- 1: (ρ, ρ', K) ∈ B^32 × B^64 × B^32 ← H(ξ ‖ IntegerToBytes(k, 1) ‖ IntegerToBytes(ℓ, 1), 128)
+  let hh := H (xi ++ [P.k % 256, P.l % 256]) 128
+  let rho := hh.take 32
+  let rhoPrime := (hh.drop 32).take 64
+  let key := (hh.drop 96).take 32
+  -- 3: Â ← ExpandA(ρ)
+  match expandA (fun x => G x nG) P.k P.l rho with
+  | none => none
+  | some aHat =>
+    -- 4: (s1, s2) ← ExpandS(ρ')
+    match expandS (fun x => H x nH) P.eta P.k P.l rhoPrime with
+    | none => none
+    | some (s1, s2) =>
+      -- 5: t ← NTT⁻¹(Â ∘ NTT(s1)) + s2
+      let s1hat := s1.map ntt
+      let t := List.zipWith (fun row s2r => addQ (invNtt (rowTimes row s1hat)) s2r) aHat s2
+      -- 6: (t1, t0) ← Power2Round(t)
+      let t1 := t.map (fun q => q.map (fun x => (power2round x).1))
+      let t0 := t.map (fun q => q.map (fun x => (power2round x).2))
+      -- 8-10: pk ← pkEncode(ρ, t1); tr ← H(pk, 64); sk ← skEncode(ρ, K, tr, s1, s2, t0)
+      let pk := pkEncode rho t1
+      let tr := H pk 64
+      some (pk, skEncode (bitlen (2 * P.eta)) P.eta rho key tr s1 s2 t0)
+
 end Fips204.Spec
